@@ -262,6 +262,15 @@ def state_methods(run, ctx):
                 run.violation(fam, "pop", "branch-pop", H.where(fn), "State::pop must pop exactly one Branch")
                 continue
             m = H.pat_match("Branch{ix:{ix},nsave:{ns},pc:{pc}}", evs[br[0]].a)
+            if not m and re.match(r"^\w+$", evs[br[0]].a or ""):
+                # the popped branch kept as a whole and read through its fields
+                class _M:
+                    def __init__(self, b):
+                        self.b = b
+
+                    def group(self, k_):
+                        return "%s.%s" % (self.b, {"ns": "nsave"}.get(k_, k_))
+                m = _M(evs[br[0]].a)
             if not m:
                 run.violation(fam, "pop", "branch-pattern", H.where(fn), "State::pop must destructure Branch{pc, ix, nsave}, found %s" % evs[br[0]].a)
                 continue
